@@ -3840,10 +3840,13 @@ such sequences can be generated while rewriting the VRO"""
             # v may be of form warn:nnn or type:XXX so only the pre-: string is a tagname
             v0 = v.split(":")[0]
 
-            if \
-                   not self.tags.isRecognized(v0) or \
-                   (not (v0 in self.commandLineTagNames) and
-                    (self.tags.getTag(v0).isGlobal() or self.tags.getTag(v0).isUser())):
+            # whatever was named with -t stays where selectVRO put it: a registered tag, and just as well a
+            # tag file (a file name is not a recognized tag, and file:name is listed under its whole name)
+            onCommandLine = v0 in self.commandLineTagNames or v in self.commandLineTagNames
+
+            if not onCommandLine and \
+                   (not self.tags.isRecognized(v0) or
+                    self.tags.getTag(v0).isGlobal() or self.tags.getTag(v0).isUser()):
                 if not tagVroEntries.count(v):
                     tagVroEntries.append(v)
             else:
